@@ -101,6 +101,9 @@ func (st *state) validate(instance reflect.Value, schema *Schema, callerAnns *an
 	schemaInfo := st.rs.resolvedInfos[schema]
 
 	var anns annotations // all the annotations for this call and child calls
+	if verifOn {
+		defer verifFrame(st, schema, instance, callerAnns, &anns, &err)()
+	}
 	// $ref: https://json-schema.org/draft/2020-12/json-schema-core#section-8.2.3.1
 	if schema.Ref != "" {
 		if err := st.validate(instance, schemaInfo.resolvedRef, &anns); err != nil {
